@@ -19,6 +19,7 @@ class Gen:
         self.used = set()
         self.allow_state = allow_state
         self.userfns = {}      # generated helper functions: name -> (args, ret, stateful)
+        self.tuples = True     # tuple-valued temporaries (projection of calls, tuple lets); off for WASM corpora
         self.closures = False  # closures / higher-order calls: covered exhaustively at small sizes by LangGen;
         #                        larger random uses run into pinned findings (captured destructured variables, ...)
 
@@ -57,7 +58,7 @@ class Gen:
         (blocks nested inside expressions are outside the clean fragment of the printer)"""
         r = self.rng
         if budget > 4 and r.random() < 0.6:
-            k = r.choice(["let", "let", "lett", "asg"] + (["letf"] if self.closures else []))
+            k = r.choice(["let", "let", "asg"] + (["lett"] if self.tuples else []) + (["letf"] if self.closures else []))
             if k == "let":
                 x = self.fresh()
                 a = self.num(sc, budget // 3)
@@ -90,7 +91,7 @@ class Gen:
             return r.choice(leaves)()
         nost = dict(sc, st=False)
         prods = ["bin"] * 5 + ["neg", "call", "call", "cmp"]
-        if not sc.get("noif"):     # also: no tuple-valued temporaries inside a tuple literal (pinned finding)
+        if not sc.get("noif") and self.tuples:  # no tuple-valued temporaries inside a tuple literal (pinned finding)
             prods.append("proj")
         if self.closures:
             prods.append("app")
@@ -111,8 +112,8 @@ class Gen:
         if k == "neg":
             return {"k": "neg", "a": self.num(sc, budget - 1)}
         if k == "if":
-            return {"k": "if", "c": self.num(sc, budget // 3), "t": self.num(nost, budget // 3),
-                    "e": self.num(nost, budget // 3)}
+            return {"k": "if", "c": self.num(sc, budget // 3), "t": self.num(sc, budget // 3),
+                    "e": self.num(sc, budget // 3)}
         if k == "mem":
             return {"k": "mem", "a": self.num(sc, budget - 1)}
         if k == "delay":
@@ -177,7 +178,7 @@ class Gen:
     def tupel(self, sc, budget):
         """tuple element: no `if` anywhere below (pinned finding if_in_tuple), the dsp input not
         as a bare element (pinned finding wasm_proj_of_input_tuple)"""
-        e = self.num(dict(sc, noif=True), budget)
+        e = self.num(dict(sc, noif=not self.tuples), budget)   # tuple temporaries + if: pinned WASM finding
         if e["k"] == "var" and e["x"] == sc.get("inp"):
             return {"k": "bin", "op": "+", "a": e, "b": {"k": "lit", "v": 0}}
         return e
@@ -269,8 +270,9 @@ def closure(used, prelude):
     return out
 
 
-def random_program(rng, prelude, sig, max_nodes=40):
+def random_program(rng, prelude, sig, max_nodes=40, tuples=True):
     g = Gen(rng, prelude, sig, max_nodes)
+    g.tuples = tuples
     fns = {}
     nuser = rng.randint(0, 2)
     for i in range(nuser):
